@@ -1,5 +1,72 @@
-/- C01 — placeholder until the theorems are in; not claimed in MANIFEST.json while this comment stands. -/
+/-
+C01 — No out-of-bounds access, undefined behaviour or hang on any input stream.
+Property theorems only; helper lemmas in ScpiVerif/Lemmas/Bounds.lean.
+
+PARTIAL BY NATURE (DESIGN.md section 7/C01): the theorems below show that the algorithm as modelled
+keeps every cursor, token extent, copy and loop inside its bounds and terminates, for all inputs.
+A C-level out-of-bounds read caused by a broken check-then-read pair (the model fuses
+`!iseos && p(pos[0])` into one primitive), signed overflow, or libc reading past a token cannot be
+exhibited by the model; those are the sanitizer's business (ASan + UBSan + the buffer-tail
+poisoning hook under the correspondence generators), which is testing and labelled so.
+-/
 import ScpiVerif.Model.Ctx
-import ScpiVerif.Spec.Message
+import ScpiVerif.Props.C13
+import ScpiVerif.Lemmas.Bounds
+
 namespace ScpiVerif.Props.C01
+open ScpiVerif ScpiVerif.Lexer ScpiVerif.Parser ScpiVerif.Ctx
+
+/-- every recogniser leaves the cursor inside its input and never moves it backwards
+(corollary of the C13 theorems; the block recogniser included, whose C cursor transiently runs past
+the end) -/
+theorem lex_bounds (buf : Bytes) (pos : Nat) (h : pos ≤ buf.length) :
+    ∀ r ∈ [lexWhiteSpace buf pos, lexProgramHeader buf pos, lexCharacterProgramData buf pos, lexDecimal buf pos,
+           lexSuffix buf pos, lexNondecimal buf pos, lexString buf pos, lexBlock buf pos, lexExpression buf pos,
+           lexComma buf pos, lexSemicolon buf pos, lexColon buf pos, lexNewLine buf pos, parseProgramData buf pos],
+      pos ≤ r.1 ∧ r.1 ≤ buf.length ∧ 0 ≤ r.2.2 ∧ r.2.1.ptr + r.2.1.len.toNat ≤ buf.length :=
+  Lemmas.Bounds.lex_bounds buf pos h
+
+/-- the unit detector always makes progress on non-empty input and never leaves it: the unit loop of
+SCPI_Parse and the scan loop of SCPI_Input terminate for every buffer content -/
+theorem detect_progress (s : Bytes) :
+    (detectUnit s).consumed ≤ s.length ∧ (s ≠ [] → 1 ≤ (detectUnit s).consumed) :=
+  ⟨(Props.C13.unit_spec s).2.2.2.2.1, (Props.C13.unit_spec s).2.2.2.2.2⟩
+
+-- `WF` (well-formed context: the buffer object has its declared length, the write position is inside,
+-- no modelled out-of-bounds access so far) is defined in Model/Ctx.lean: `ScpiVerif.Ctx.WF`.
+
+/-- SCPI_Parse on a message inside the buffer terminates without exhausting its step budget, never
+composes a header before the start of the buffer, and modifies no byte outside the message -/
+theorem parse_inside (c : Ctx) (base len : Nat) (hb : base + len ≤ c.buf.length) (ho : c.oob = false) :
+    let c' := (parse c base len).1
+    c'.oob = false ∧ c'.buf.length = c.buf.length ∧
+    c'.buf.take base = c.buf.take base ∧ c'.buf.drop (base + len) = c.buf.drop (base + len) :=
+  Lemmas.Bounds.parse_inside c base len hb ho
+
+/-- SCPI_Input keeps the context well formed for every chunk, including zero-length and over-long ones -/
+theorem input_wf (c : Ctx) (data : Bytes) (h : WF c) : WF (input c data) := Lemmas.Bounds.input_wf c data h
+
+/-- hence along every history of input calls -/
+theorem inputs_wf (c : Ctx) (chunks : List Bytes) (h : WF c) : WF (chunks.foldl input c) := by
+  induction chunks generalizing c with
+  | nil => simpa using h
+  | cons d ds ih => exact ih (input c d) (input_wf c d h)
+
+/-- an over-long chunk copies nothing: the buffer is invalidated and -363 is queued -/
+theorem overrun_copies_nothing (c : Ctx) (data : Bytes) (h : WF c) (hd : data ≠ [])
+    (hover : data.length + 1 > c.bufLen - c.position) :
+    (input c data).position = 0 ∧ (input c data).buf = c.buf.set 0 0 ∧
+    (input c data).events = c.events ++ [Ev.error (-363) none] ++
+      (if c.eq.fifo.count = c.eq.fifo.size then [Ev.error (-350) none] else []) ++ [Ev.input false] :=
+  Lemmas.Bounds.overrun_copies_nothing c data h hd hover
+
+/-- SCPI_ParamCopyText never stores more than the caller's buffer holds, and the NUL only if a byte remains -/
+theorem copyText_bound (tok : Bytes) (q : UInt8) (cap : Nat) :
+    (copyText tok q cap).1.length ≤ cap ∧ ((copyText tok q cap).2 = true ↔ (copyText tok q cap).1.length < cap) :=
+  Lemmas.Bounds.copyText_bound tok q cap
+
+/-- the array readers store at most the announced number of values -/
+theorem paramArr_bound (c : Ctx) (w : Nat) (signed : Bool) (cap : Nat) (mand : Bool) :
+    (paramArrInt c w signed cap mand).2.2.length ≤ cap := Lemmas.Bounds.paramArr_bound c w signed cap mand
+
 end ScpiVerif.Props.C01
